@@ -520,6 +520,20 @@ func (e *SpecEnv) callExpr(n *ast.CallExpr) Value {
 		return ex.iteValue(c, a, b)
 	case "forall", "exists":
 		return e.quant(n, fname)
+	case "first":
+		// first(i, lo, hi, cond): least i in [lo,hi) with cond(i), else -1 (constant bounds)
+		name := arg(0).(*ast.Ident).Name
+		lo, okl := e.evalInt(arg(1)).IntConst()
+		hi, okh := e.evalInt(arg(2)).IntConst()
+		if !okl || !okh || hi.Int64()-lo.Int64() > 256 {
+			e.fail(n, "first: bounds must be small constants")
+		}
+		res := IntC(-1)
+		for i := hi.Int64() - 1; i >= lo.Int64(); i-- {
+			c := e.bind(name, UntypedInt{N: big.NewInt(i)}).evalBool(arg(3))
+			res = Ite(c, IntC(i), res)
+		}
+		return IntV{T: res, W: 64, Signed: true}
 	case "forallref", "existsref":
 		name := arg(0).(*ast.Ident).Name
 		quantCounter++
